@@ -218,6 +218,74 @@ theorem unpackCols_set (n : Nat) (groups : Option Groups) :
           (by rw [h2, List.length_drop]; omega) (by omega) hr]
         simp only [Option.map_some, feed, if_neg hlt, List.set_cons_succ, List.getD_cons_succ]
 
+/-! ### the unpacked array depends on `params` only through the constant columns -/
+
+theorem setGroups_congr_of_cover (c c' : List α) (gs : List (List Nat)) (vals : List α)
+    (hl : c.length = c'.length) (hdis : gs.Pairwise (fun g h => ∀ x ∈ g, x ∉ h))
+    (hlen : vals.length = gs.length) (hcov : ∀ r, r < c.length → ∃ g ∈ gs, r ∈ g) :
+    setGroups c gs vals = setGroups c' gs vals := by
+  apply ext_getD _ _ (by simp [hl])
+  intro i hi
+  simp only [length_setGroups] at hi
+  obtain ⟨g, hg, hig⟩ := hcov i hi
+  obtain ⟨j, hj, rfl⟩ := List.getElem_of_mem hg
+  have hm : i ∈ gs.getD j [] := by simpa [List.getD_eq_getElem?_getD, hj] using hig
+  rw [getD_setGroups_of_mem c gs vals j i hdis hlen hj hm hi,
+    getD_setGroups_of_mem c' gs vals j i hdis hlen hj hm (hl ▸ hi)]
+
+/-- a non-constant column whose groups cover all features is rebuilt from the vector alone -/
+theorem unpackCol_congr (n : Nat) (k : Kind) (vect col col' : List α) (hc : col.length = n)
+    (hc' : col'.length = n) (hk : kindOK n k = true) (hv : kindLen n k ≤ vect.length)
+    (hne : k = .const → col = col')
+    (hcov : ∀ gs, k = .grouped gs → ∀ r, r < n → ∃ g ∈ gs, r ∈ g) :
+    unpackCol n k vect col = unpackCol n k vect col' := by
+  cases k with
+  | const => rw [hne rfl]
+  | error => simp [kindOK] at hk
+  | all => rfl
+  | one => rfl
+  | grouped gs =>
+    simp only [kindOK, groupListOK_iff] at hk
+    simp only [kindLen] at hv
+    simp only [unpackCol]
+    rw [setGroups_congr_of_cover col col' gs _ (by rw [hc, hc']) hk.disjoint (by simp [hv])
+      (by rw [hc]; exact hcov gs rfl)]
+
+theorem unpackCols_const_only (n : Nat) (groups : Option Groups) :
+    ∀ (modes : List Nat) (vect : List α) (cols cols' : List (List α)),
+      cols.length = modes.length → cols'.length = modes.length →
+      shapeOK n cols = true → shapeOK n cols' = true → modesOK n groups modes = true →
+      packedLen n groups modes ≤ vect.length →
+      (∀ m ∈ modes, ∀ gs, kind groups m = .grouped gs → ∀ r, r < n → ∃ g ∈ gs, r ∈ g) →
+      (∀ i, i < modes.length → kind groups (modes.getD i 0) = .const →
+        cols.getD i [] = cols'.getD i []) →
+      unpackCols n groups modes vect cols = unpackCols n groups modes vect cols'
+  | [], _, [], [], _, _, _, _, _, _, _, _ => rfl
+  | [], _, _ :: _, _, hl, _, _, _, _, _, _, _ => by simp at hl
+  | [], _, [], _ :: _, _, hl, _, _, _, _, _, _ => by simp at hl
+  | _ :: _, _, [], _, hl, _, _, _, _, _, _, _ => by simp at hl
+  | _ :: _, _, _ :: _, [], _, hl, _, _, _, _, _, _ => by simp at hl
+  | m :: ms, vect, c :: cs, c' :: cs', hl, hl', hs, hs', hok, hv, hcov, hag => by
+    simp only [modesOK, List.all_cons, Bool.and_eq_true] at hok
+    have hk : kind groups m ≠ .error := by
+      intro h; rw [h] at hok; simp [kindOK] at hok
+    simp only [shapeOK, List.all_cons, Bool.and_eq_true, beq_iff_eq] at hs hs'
+    have hpl : packedLen n groups (m :: ms) = kindLen n (kind groups m) + packedLen n groups ms := by
+      simp [packedLen]
+    rw [hpl] at hv
+    rw [unpackCols_cons _ _ _ _ _ _ _ hk, unpackCols_cons _ _ _ _ _ _ _ hk]
+    have h0 := hag 0 (by simp)
+    simp only [List.getD_cons_zero] at h0
+    have hcol := unpackCol_congr n (kind groups m) vect c c' hs.1 hs'.1 hok.1 (by omega) h0
+      (hcov m (by simp))
+    rw [hcol]
+    have h2 := unpackCol_snd n (kind groups m) vect c'
+    rw [unpackCols_const_only n groups ms _ cs cs' (by simpa using hl) (by simpa using hl')
+      (by simpa [shapeOK] using hs.2) (by simpa [shapeOK] using hs'.2)
+      (by simpa [modesOK] using hok.2) (by rw [h2, List.length_drop]; omega)
+      (fun m' hm' => hcov m' (by simp [hm']))
+      (fun i hi hc => by simpa using hag (i + 1) (by simpa using hi) (by simpa using hc))]
+
 end Unpack
 
 /-! ### what `feed` returns -/
